@@ -76,3 +76,33 @@ class SortedView:
 
     def truth(self, I):
         return self.seq.length > 0 if isinstance(self.seq, SymSeq) else bool(self.seq)
+
+
+class ConcatSeq:
+    """concatenation of sequences (concrete lists and symbolic-length sequences), e.g. `xs + list(d.values())`"""
+
+    def __init__(self, parts):
+        self.parts = []
+        for p in parts:
+            if isinstance(p, ConcatSeq):
+                self.parts.extend(p.parts)
+            else:
+                self.parts.append(p)
+
+    def truth(self, I):
+        ts = []
+        for p in self.parts:
+            if isinstance(p, (list, tuple)):
+                if len(p) > 0:
+                    return True
+            elif isinstance(p, SymSeq):
+                ts.append(p.length > 0)
+        if not ts:
+            return False
+        return z3.Or(ts) if len(ts) > 1 else ts[0]
+
+    def sym_binop(self, I, op, other, reflected):
+        import ast as _ast
+        if isinstance(op, _ast.Add) and isinstance(other, (list, tuple, SymSeq, ConcatSeq)):
+            return ConcatSeq([other, self] if reflected else [self, other])
+        return NotImplemented
